@@ -45,7 +45,7 @@ def rule_p3(ctx: Ctx, m: SharedModel) -> None:
                 if isinstance(st, ast.AnnAssign) and isinstance(st.target, ast.Name):
                     base_fields.append(st.target.id)
                     if st.value is not None and st.target.id in m.fields:
-                        ctx.violation("C02-P3", base.where, st, f"mutable field {st.target.id} has a default value shared by every instance", file=base.module.relpath)
+                        ctx.violation("C02-P3", base.where, st, f"mutable field {st.target.id} has a default value shared by every instance", file=base.module.relpath, robust=True)
     calls = []
     for fi in m.funcs:
         for node in walk_no_nested(fi.node):
@@ -72,7 +72,7 @@ def rule_p3(ctx: Ctx, m: SharedModel) -> None:
             if fr is True:
                 ctx.ok("C02-P3", fi.where, f"field {fld} initialised with a fresh object `{unparse(arg)}` at the creating call", call, fi)
             elif fr is False:
-                ctx.violation("C02-P3", fi, call, f"field {fld} is initialised from `{unparse(arg)}`, which is not created at the call: level caches of different classes would share state")
+                ctx.violation("C02-P3", fi, call, f"field {fld} is initialised from `{unparse(arg)}`, which is not created at the call: level caches of different classes would share state", robust=True)
             else:
                 raise AnalysisError(f"{fi.where}: whether `{unparse(arg)[:50]}` (initial value of {fld}) is a fresh object is not decided")
 
@@ -152,7 +152,7 @@ def rule_p4(ctx: Ctx, m: SharedModel) -> None:
                     if fi.cls is not None and fi.cls.name == "Av" and fi.name in QUERY_EXEMPT:
                         ctx.ok("C02-P4", fi.where, f"{cc} accessed in {fi.name}", m.stmt_of(fi, node), fi)
                     elif fi.cls is not None and fi.cls.name == "Av":
-                        ctx.violation("C02-P4", fi, m.stmt_of(fi, node), f"{fi.name} touches the instance map {cc}: answers would depend on which classes exist or on clear_cache()")
+                        ctx.violation("C02-P4", fi, m.stmt_of(fi, node), f"{fi.name} touches the instance map {cc}: answers would depend on which classes exist or on clear_cache()", robust=True)
                     else:
                         ctx.note(f"{fi.where} accesses Av.{cc} from outside the class")
     # writers of the level cache are reachable only from the ensure step (= lock-held set)
@@ -162,7 +162,7 @@ def rule_p4(ctx: Ctx, m: SharedModel) -> None:
         entry = [c.where for c, _n, _l in m.callers.get(w, [])]
         public = fi.parent is None and not fi.name.startswith("_")
         if public:
-            ctx.violation("C02-P4", fi, fi.node, f"public method {fi.name} writes the level cache directly")
+            ctx.violation("C02-P4", fi, fi.node, f"public method {fi.name} writes the level cache directly", robust=True)
         elif not entry and fi.parent is None:
             raise AnalysisError(f"{fi.where}: writes the level cache but no direct call of it was found (dynamic dispatch?); whether it is reached only through the ensure step is not decided")
         else:
@@ -222,40 +222,40 @@ def rule_p5(ctx: Ctx, m: SharedModel) -> None:
             if isinstance(node, ast.Call) and isinstance(node.func, ast.Attribute) and node.func.attr in ("pop", "popitem", "clear") and is_map(node.func.value):
                 removed = node
             if removed is not None:
-                ctx.violation("C02-P5", fi2, m.stmt_of(fi2, removed), f"{fi2.name} removes an entry of the instance map: a class object that is still in use can be evicted, after which an equal basis denotes a second, distinct object (with its own level cache)")
+                ctx.violation("C02-P5", fi2, m.stmt_of(fi2, removed), f"{fi2.name} removes an entry of the instance map: a class object that is still in use can be evicted, after which an equal basis denotes a second, distinct object (with its own level cache)", robust=True)
                 return
     if not lookups:
         raise AnalysisError(f"{new.where}: identity-map lookup not recognised")
     keys = {k for _kind, k, _n in lookups}
     if len(keys) != 1:
-        ctx.violation("C02-P5", new, lookups[0][2], f"the instance map is consulted under different keys {sorted(keys)}")
+        ctx.violation("C02-P5", new, lookups[0][2], f"the instance map is consulted under different keys {sorted(keys)}", robust=True)
         return
     key = keys.pop()
     if not stores:
-        ctx.violation("C02-P5", new, lookups[0][2], "on a miss the new instance is not stored in the instance map: equal bases would denote different class objects")
+        ctx.violation("C02-P5", new, lookups[0][2], "on a miss the new instance is not stored in the instance map: equal bases would denote different class objects", robust=True)
         return
     if len(stores) != 1 or len(creations) != 1:
         raise AnalysisError(f"{new.where}: miss path not recognised ({len(stores)} stores, {len(creations)} creations)")
     skey, sval, snode = stores[0]
     cvar, cnode = creations[0]
     if skey != key:
-        ctx.violation("C02-P5", new, snode, f"instance stored under key `{skey}` but looked up under `{key}`")
+        ctx.violation("C02-P5", new, snode, f"instance stored under key `{skey}` but looked up under `{key}`", robust=True)
         return
     ret_txt = [unparse(r.value) for r in returns]
     if sval != cvar or cvar not in ret_txt:
-        ctx.violation("C02-P5", new, snode, f"miss path stores `{sval}` and returns {ret_txt}; both must be the new instance `{cvar}`")
+        ctx.violation("C02-P5", new, snode, f"miss path stores `{sval}` and returns {ret_txt}; both must be the new instance `{cvar}`", robust=True)
         return
     call = cnode.value
     made_for = unparse(call.args[1]) if len(call.args) > 1 else next((unparse(k.value) for k in call.keywords if k.arg == "basis"), None)
     if made_for is None:
         raise AnalysisError(f"{new.where}: the basis the new instance is created for is not recognised")
     if made_for != key:
-        ctx.violation("C02-P5", new, cnode, f"new instance is created for `{made_for}` but registered under `{key}`")
+        ctx.violation("C02-P5", new, cnode, f"new instance is created for `{made_for}` but registered under `{key}`", robust=True)
         return
     # hit path: the looked-up object itself is returned
     hit = [t for t in ret_txt if t in got_var or any(t == unparse(n) for kind, _k, n in lookups if kind == "item")]
     if not hit:
-        ctx.violation("C02-P5", new, returns[0] if returns else new.node, "hit path does not return the cached instance")
+        ctx.violation("C02-P5", new, returns[0] if returns else new.node, "hit path does not return the cached instance", robust=True)
         return
     # the hit return must not be reachable on a miss: accepted guards
     guarded = False
